@@ -136,7 +136,11 @@ func runAssert(m map[string]string) string {
 		kv := strings.SplitN(h, ":", 2)
 		resp.Header.Set(kv[0], unhx(kv[1]))
 	}
-	_, err := pp.Process(resp, bytes.NewReader([]byte(unhx(m["body"]))))
+	var body io.Reader // nobody=1: an untyped nil reader
+	if m["nobody"] != "1" {
+		body = bytes.NewReader([]byte(unhx(m["body"])))
+	}
+	_, err := pp.Process(resp, body)
 	if err != nil {
 		return "err"
 	}
@@ -618,7 +622,8 @@ func randPP(r *rand.Rand) string {
 		hdr := []string{"X-Val", "X-Short", "X-Missing", "Content-Type"}[r.Intn(4)]
 		return "H~" + hdr + "~" + randMods(r)
 	case 3:
-		return fmt.Sprintf("A~%d~-~-~-", []int{0, 200, 404, 500}[r.Intn(4)])
+		// no body pattern: a size block alone makes the assertion read (and measure) the body
+		return fmt.Sprintf("A~%d~-~-~%s", []int{0, 200, 404, 500}[r.Intn(4)], []string{"-", "-", "gt:10", "lt:10", "eq:0", "eq:7", "gt:100000"}[r.Intn(7)])
 	case 4:
 		return "A~0~" + hx([]string{"result", "token", "zzz", "<div"}[r.Intn(4)]) + "~-~" + []string{"-", "gt:10", "lt:10", "eq:0", "gt:100000"}[r.Intn(5)]
 	case 5:
@@ -796,8 +801,13 @@ func gen(r *rand.Rand, tier string) []string {
 		if r.Intn(2) == 0 {
 			size = ops[r.Intn(len(ops))] + ":" + strconv.Itoa([]int{0, 1, 12, len(body), len(body) + 1, 100000}[r.Intn(6)])
 		}
-		out = append(out, fmt.Sprintf("k=assert st=%d cfgst=%d body=%s pats=%s hdrs=%s chk=%s size=%s",
-			[]int{200, 404, 500, 0, 999}[r.Intn(5)], []int{0, 200, 404}[r.Intn(3)], hx(body), strings.Join(pats, ","), hdrs, chk, size))
+		// nobody=1: Process is handed a nil reader (the guns never do; the `body != nil` guard of the source)
+		nobody := ""
+		if r.Intn(16) == 0 {
+			nobody = " nobody=1"
+		}
+		out = append(out, fmt.Sprintf("k=assert st=%d cfgst=%d body=%s pats=%s hdrs=%s chk=%s size=%s%s",
+			[]int{200, 404, 500, 0, 999}[r.Intn(5)], []int{0, 200, 404}[r.Intn(3)], hx(body), strings.Join(pats, ","), hdrs, chk, size, nobody))
 	}
 	// 3. assert/response grpc
 	for i := 0; i < mul(400, 15000); i++ {
